@@ -1,9 +1,261 @@
-import BiotiteModel.Proofs.C07H36
-import BiotiteModel.Model.C07
+import BiotiteModel.Proofs.C07Misc
 import BiotiteModel.Gen.C07
+/-!
+# C07 — PDB files round-trip structures and never emit shifted columns: property theorems
+
+Only property statements, regenerated-table obligations and non-vacuity examples; helper lemmas are in
+`Proofs/C07*.lean`.  All theorems quantify over all inputs (no size bound).
+-/
 namespace BiotiteModel.C07
 
+/-! ## hybrid-36 (every width `w ≥ 1`; the PDB format uses 4 and 5) -/
+
+/-- decoding inverts encoding for every number the width can hold -/
 theorem C07_h36_decode_encode (w n : Nat) (hw : 1 ≤ w) (hn : n ≤ maxNumber w) :
     ∃ s, encodeH36 (n : Int) w = .ok s ∧ decodeH36 s = .ok (n : Int) := decode_encode w n hw hn
+
+/-- … also inside a blank-padded column of any width (the reader slices fixed columns) -/
+theorem C07_h36_decode_encode_padded (w n a b : Nat) (hw : 1 ≤ w) (hn : n ≤ maxNumber w) :
+    ∃ s, encodeH36 (n : Int) w = .ok s ∧
+      decodeH36 (List.replicate a ' ' ++ s ++ List.replicate b ' ') = .ok (n : Int) :=
+  decode_pad_encode w n a b hw hn
+
+/-- encoding inverts decoding on canonical hybrid-36 letter strings (upper or lower case) -/
+theorem C07_h36_encode_decode (s : List Char)
+    (h : canonicalLetters asciiFirstUpper s = true ∨ canonicalLetters asciiFirstLower s = true) :
+    ∃ v : Int, decodeH36 s = .ok v ∧ encodeH36 v s.length = .ok s :=
+  h.elim (encode_decode_upper s) (encode_decode_lower s)
+
+/-- an encoded number never exceeds its column and is never empty or blank -/
+theorem C07_h36_width (n : Int) (w : Nat) (s : List Char) (h : encodeH36 n w = .ok s) :
+    s.length ≤ w ∧ s ≠ [] ∧ ∀ c ∈ s, isWS c = false :=
+  ⟨encodeH36_length n w s h, encodeH36_ne_nil n w s h, encodeH36_no_ws n w s h⟩
+
+/-- numbers the width cannot hold (and negative numbers) are refused -/
+theorem C07_h36_rejects (w : Nat) (n : Int) (h : n < 0 ∨ (maxNumber w : Int) < n) :
+    encodeH36 n w = .error .valueError :=
+  h.elim (encode_rejects_neg w n) (encode_rejects w n)
+
+example : encodeH36 2436111 4 = .ok "zzzz".toList ∧ decodeH36 "zzzz".toList = .ok 2436111 := by decide
+example : encodeH36 100000 5 = .ok "A0000".toList ∧ maxNumber 5 = 87440031 ∧ maxNumber 4 = 2436111 := by decide
+example : encodeH36 2436112 4 = .error .valueError := by decide
+example : canonicalLetters asciiFirstUpper "A0Z9".toList = true := by decide
+
+/-! ## rounding: what is written is within half a unit of the last decimal of the exact value -/
+
+theorem C07_round_error (x : Fx) (d : Nat) :
+    2 * ((x.scaled d : Int) * 2 ^ x.e - x.m * 10 ^ d).natAbs ≤ 2 ^ x.e := by
+  have h := roundHE_error (x.m * 10 ^ d) (2 ^ x.e) (Nat.pow_pos (by decide))
+  simpa [Fx.scaled] using h
+
+/-- -999.9996 (float32 -999.99957275390625 = -16383993/2^14) rounds to -1000.000: nine characters -/
+example : (fmtFixed 3 ⟨true, 16383993, 14⟩) = "-1000.000".toList := by decide
+/-- ties go to the even neighbour, the sign of a negative zero is kept -/
+example : fmtFixed 3 ⟨false, 1, 4⟩ = "0.062".toList ∧ fmtFixed 3 ⟨true, 1, 14⟩ = "-0.000".toList := by decide
+
+/-! ## the compatibility check accepts exactly what fits after rounding -/
+
+/-- **soundness of `_check_pdb_compatibility`** (after the fixes): an accepted structure has every field of
+every atom inside its columns, magnitudes measured after rounding -/
+theorem C07_compat_sound (fl : Flags) (s : Struct) (h : checkCompat fl s = .ok ()) :
+    (∀ p ∈ enum s.atoms, CompatStrong fl p.1 p.2) ∧ (∀ m ∈ s.models, ∀ c ∈ m, CoordStrong c) :=
+  checkCompat_sound fl s h
+
+/-- the check is exact per atom / coordinate: it refuses nothing that fits -/
+theorem C07_compat_exact (fl : Flags) (i : Nat) (a : Atom) (c : Coord) :
+    (checkAtom fl i a = true ↔ CompatStrong fl i a) ∧ (checkCoord c = true ↔ CoordStrong c) :=
+  ⟨checkAtom_iff fl i a, checkCoord_iff c⟩
+
+/-- what does not fit is refused with `BadStructureError` before anything is written -/
+theorem C07_refused (fl : Flags) (s : Struct) (h : checkCompat fl s ≠ .ok ()) :
+    writePdb fl s = .error .badStructure := by
+  have := checkCompat_rejects fl s h
+  simp [writePdb, this, bind, Except.bind]
+
+/-- x = -999.9996 is refused, x = -999.9994 is accepted -/
+example : checkCoord (⟨true, 16383993, 14⟩, ⟨false, 0, 0⟩, ⟨false, 0, 0⟩) = false ∧
+          checkCoord (⟨true, 16383990, 14⟩, ⟨false, 0, 0⟩, ⟨false, 0, 0⟩) = true := by decide
+
+/-! ## every accepted record has its fields in the fixed columns -/
+
+/-- **columns**: a record accepted by the check (`CompatStrong`, `CoordStrong`), with blank-free fields, is
+exactly 80 characters long and every field sits, padded, in its standard columns
+(0-based half-open `slice a b`; e.g. `slice 30 38` = PDB columns 31-38). -/
+theorem C07_columns (fl : Flags) (i : Nat) (a : Atom) (c : Coord) (idTxt resTxt : List Char)
+    (h : CompatStrong fl i a) (hc : CoordStrong c) (hcl : Clean a)
+    (hid : idText fl.h36 5 pdbMaxAtoms (effId fl i a) = .ok idTxt)
+    (hres : idText fl.h36 4 pdbMaxResidues a.resId = .ok resTxt) :
+    let l := atomLine (firstHalf a idTxt resTxt) (secondHalf fl a) c
+    l.length = 80 ∧
+    slice 0 6 l = ljust 6 (recordName a) ∧ slice 6 11 l = rjust 5 idTxt ∧ slice 11 12 l = [' '] ∧
+    slice 12 16 l = ljust 4 (alignedName a) ∧ slice 16 17 l = [' '] ∧ slice 17 20 l = rjust 3 a.resName ∧
+    slice 20 21 l = [' '] ∧ slice 21 22 l = ljust 1 a.chain ∧ slice 22 26 l = rjust 4 resTxt ∧
+    slice 26 27 l = rjust 1 a.insCode ∧ slice 27 30 l = [' ', ' ', ' '] ∧
+    slice 30 38 l = rjust 8 (fmtFixed 3 c.1) ∧ slice 38 46 l = rjust 8 (fmtFixed 3 c.2.1) ∧
+    slice 46 54 l = rjust 8 (fmtFixed 3 c.2.2) ∧ slice 54 60 l = occText fl a ∧ slice 60 66 l = bfText fl a ∧
+    slice 66 76 l = List.replicate 10 ' ' ∧ slice 76 78 l = rjust 2 a.element ∧ slice 78 80 l = chargeField fl a := by
+  have hidf := idText_length fl.h36 5 pdbMaxAtoms _ idTxt (by decide) (by decide)
+    (fun hf => by have := h.atomIdLo hf; simpa using this) hid
+  have hresf := idText_length fl.h36 4 pdbMaxResidues _ resTxt (by decide) (by decide)
+    (fun hf => by have := h.resIdLo hf; simpa using this) hres
+  have hcc := (checkCoord_iff c).2 hc
+  simp only [checkCoord, Bool.and_eq_true, decide_eq_true_eq] at hcc
+  have ho := occText_facts fl i a h
+  have hb := bfText_facts fl i a h
+  have hq := chargeField_facts fl i a h
+  exact atomLine_layout a fl c idTxt resTxt hidf.1 hresf.1 h.name h.resName h.chain h.ins h.element
+    hcc.1.1 hcc.1.2 hcc.2 ho.1 hb.1 hq.1
+    (firstHalf_ws a idTxt resTxt hcl hidf.2.2 hresf.2.2)
+    (secondHalf_ws fl a hcl ho.2 hb.2 hq.2)
+
+/-- inside the hybrid-36 / plain id ranges the writer does not fail on an accepted atom -/
+theorem C07_ids_written (fl : Flags) (i : Nat) (a : Atom) (hr : IdsInRange fl i a) :
+    (∃ t, idText fl.h36 5 pdbMaxAtoms (effId fl i a) = .ok t) ∧ (∃ t, idText fl.h36 4 pdbMaxResidues a.resId = .ok t) := by
+  unfold IdsInRange at hr
+  unfold idText
+  cases hf : fl.h36
+  · exact ⟨⟨_, rfl⟩, ⟨_, rfl⟩⟩
+  · simp only [hf, if_true] at hr
+    obtain ⟨n, hn⟩ := Int.eq_ofNat_of_zero_le hr.1
+    obtain ⟨m, hm⟩ := Int.eq_ofNat_of_zero_le hr.2.2.1
+    obtain ⟨s1, h1, _⟩ := decode_encode 5 n (by decide) (by rw [hn] at hr; exact_mod_cast hr.2.1)
+    obtain ⟨s2, h2, _⟩ := decode_encode 4 m (by decide) (by rw [hm] at hr; exact_mod_cast hr.2.2.2)
+    simp only [if_true]
+    exact ⟨⟨s1, by rw [hn]; exact h1⟩, ⟨s2, by rw [hm]; exact h2⟩⟩
+
+/-- **record round trip (partial: identifier and name fields).**  Reading the standard columns of a written
+record gives back hetero flag, atom id, atom name, residue name, chain, residue id, insertion code and
+element.  The numeric fields (coordinates, occupancy, B-factor, charge) are covered by `C07_columns` +
+`C07_round_error` (their text sits in its columns and is within half a unit of the last decimal); that
+`float()` reads this text back is tied by the correspondence and the write/read oracle, not by a theorem. -/
+theorem C07_atom_roundtrip_partial (fl : Flags) (i : Nat) (a : Atom) (c : Coord) (idTxt resTxt : List Char)
+    (h : CompatStrong fl i a) (hc : CoordStrong c) (hcl : Clean a) (hr : IdsInRange fl i a)
+    (hid : idText fl.h36 5 pdbMaxAtoms (effId fl i a) = .ok idTxt)
+    (hres : idText fl.h36 4 pdbMaxResidues a.resId = .ok resTxt) :
+    let l := atomLine (firstHalf a idTxt resTxt) (secondHalf fl a) c
+    (slice 0 6 l == "HETATM".toList) = a.hetero ∧ decodeH36 (slice 6 11 l) = .ok (effId fl i a) ∧
+    strip (slice 12 16 l) = a.name ∧ slice 16 17 l = [' '] ∧ strip (slice 17 20 l) = a.resName ∧
+    strip (slice 21 22 l) = a.chain ∧ decodeH36 (slice 22 26 l) = .ok a.resId ∧
+    strip (slice 26 27 l) = a.insCode ∧ strip (slice 76 78 l) = a.element := by
+  have hcol := C07_columns fl i a c idTxt resTxt h hc hcl hid hres
+  intro l
+  obtain ⟨_, s0, s1, _, s3, s4, s5, _, s7, s8, s9, _, _, _, _, _, _, _, s17, _⟩ := hcol
+  obtain ⟨c1, c2, c3, c4, c5⟩ := hcl
+  have hra : if fl.h36 then 0 ≤ effId fl i a ∧ effId fl i a ≤ (maxNumber 5 : Nat) else effId fl i a ≤ pdbMaxAtoms := by
+    unfold IdsInRange at hr
+    cases hf : fl.h36
+    · simp only [hf, Bool.false_eq_true, if_false] at hr ⊢; simpa [pdbMaxAtoms] using hr.1
+    · simp only [hf, if_true] at hr ⊢; exact ⟨hr.1, hr.2.1⟩
+  have hrr : if fl.h36 then 0 ≤ a.resId ∧ a.resId ≤ (maxNumber 4 : Nat) else a.resId ≤ pdbMaxResidues := by
+    unfold IdsInRange at hr
+    cases hf : fl.h36
+    · simp only [hf, Bool.false_eq_true, if_false] at hr ⊢; simpa [pdbMaxResidues] using hr.2
+    · simp only [hf, if_true] at hr ⊢; exact ⟨hr.2.2.1, hr.2.2.2⟩
+  refine ⟨?_, ?_, ?_, s4, ?_, ?_, ?_, ?_, ?_⟩
+  · show (slice 0 6 l == _) = _
+    rw [s0]; exact recordName_hetatm a
+  · show decodeH36 (slice 6 11 l) = _
+    rw [s1]
+    have := idText_decode fl.h36 5 pdbMaxAtoms _ idTxt (5 - idTxt.length) 0 (by decide) hra hid
+    simpa [rjust] using this
+  · show strip (slice 12 16 l) = _
+    rw [s3]; exact strip_alignedName a 4 c1
+  · show strip (slice 17 20 l) = _
+    rw [s5]; exact strip_rjust 3 _ c2
+  · show strip (slice 21 22 l) = _
+    rw [s7]; exact strip_ljust 1 _ c3
+  · show decodeH36 (slice 22 26 l) = _
+    rw [s8]
+    have := idText_decode fl.h36 4 pdbMaxResidues _ resTxt (4 - resTxt.length) 0 (by decide) hrr hres
+    simpa [rjust] using this
+  · show strip (slice 26 27 l) = _
+    rw [s9]; exact strip_rjust 1 _ c4
+  · show strip (slice 76 78 l) = _
+    rw [s17]; exact strip_rjust 2 _ c5
+
+/-- non-vacuity: a concrete HETATM record on the column limits -/
+example :
+    let a : Atom := { hetero := true, atomId := -9999, name := "CA".toList, resName := "LIG".toList, chain := [],
+                      resId := -999, insCode := "A".toList, element := "C".toList, occ := ⟨false, 1, 0⟩,
+                      bf := ⟨false, 999990, 3⟩ /- 124998.75 > limit is *not* used: hasB = false -/, charge := -9 }
+    let fl : Flags := { h36 := false, hasId := true, hasB := false, hasOcc := true, hasQ := true, hasBonds := false }
+    let c : Coord := (⟨true, 16383990, 14⟩, ⟨false, 81919992, 13⟩, ⟨true, 0, 0⟩)
+    checkAtom fl 0 a = true ∧ checkCoord c = true ∧
+    atomLine (firstHalf a "-9999".toList "-999".toList) (secondHalf fl a) c =
+      "HETATM-9999  CA  LIG  -999A   -999.9999999.999  -0.000  1.00  0.00           C9-".toList := by decide
+
+/-! ## CONECT records -/
+
+/-- bonds handed to the CONECT writer = bonds with a non-water hetero atom or between different
+residues / chains; each atom's partners are the symmetric closure of those rows; they are cut into
+records of 1–4 partners without loss or reordering -/
+theorem C07_conect (atoms : List Atom) (bonds : List (Nat × Nat)) (cidx p : Nat) :
+    (p ∈ partners (bonds.filter (carriable atoms)) cidx ↔
+      (((cidx, p) ∈ bonds ∧ carriable atoms (cidx, p) = true) ∨ ((p, cidx) ∈ bonds ∧ carriable atoms (p, cidx) = true))) ∧
+    (chunk4 (partners (bonds.filter (carriable atoms)) cidx)).flatten = partners (bonds.filter (carriable atoms)) cidx ∧
+    ∀ ch ∈ chunk4 (partners (bonds.filter (carriable atoms)) cidx), 1 ≤ ch.length ∧ ch.length ≤ 4 := by
+  refine ⟨?_, chunk4_flatten _, chunk4_sizes _⟩
+  rw [mem_partners]
+  simp [List.mem_filter]
+
+example : chunk4 [1, 2, 3, 4, 5, 6] = [[1, 2, 3, 4], [5, 6]] := by decide
+
+/-! ## obligations on the tables regenerated from `file.py` / `hybrid36.pyx` (`Gen/C07.lean`) -/
+section Gen
+open BiotiteModel.Gen.C07
+
+/-- running offsets of a layout `(name, justification, width)`; unpadded numeric fields take `w0` columns -/
+def offsets (start w0 : Nat) : List (String × String × Nat) → List (String × Nat × Nat)
+  | [] => []
+  | (n, j, w) :: r =>
+    let w' := if j = "none" then w0 else w
+    (n, start, start + w') :: offsets (start + w') w0 r
+
+def colOf (k : String) (l : List (String × Nat × Nat)) : Option (Nat × Nat) := l.lookup k
+
+/-- writer field offsets = reader slices (first half of the record); total 27 -/
+theorem C07_gen_first_half :
+    let o := offsets 0 0 Gen.C07.firstHalf
+    colOf "record" o = colOf "_record" slices ∧ colOf "pdb_atom_id" o = colOf "_atom_id" slices ∧
+    colOf "names" o = colOf "_atom_name" slices ∧ colOf "res_names" o = colOf "_res_name" slices ∧
+    colOf "chain_ids" o = colOf "_chain_id" slices ∧ colOf "pdb_res_id" o = colOf "_res_id" slices ∧
+    colOf "ins_codes" o = colOf "_ins_code" slices ∧ colOf "_alt_loc" slices = some (16, 17) ∧
+    (o.map (·.2.2)).getLast? = some 27 ∧ Gen.C07.firstHalf.all (fun f => f.2.1 != "none") = true := by decide
+
+/-- … coordinates and the total record length 80 -/
+theorem C07_gen_line :
+    let o := offsets 0 0 Gen.C07.atomLine
+    colOf "start" o = some (0, 27) ∧ colOf "x" o = colOf "_coord_x" slices ∧ colOf "y" o = colOf "_coord_y" slices ∧
+    colOf "z" o = colOf "_coord_z" slices ∧ colOf "end" o = some (54, 80) ∧
+    coordFmt = (">", 8, 3) ∧ Gen.C07.atomLine.all (fun f => f.2.1 != "none") = true := by decide
+
+/-- … second half (starts at column 54): occupancy / B-factor are written with their own 6-column format -/
+theorem C07_gen_second_half :
+    let o := offsets 54 6 Gen.C07.secondHalf
+    colOf "occupancy" o = colOf "_occupancy" slices ∧ colOf "b_factor" o = colOf "_temp_f" slices ∧
+    colOf "elements" o = colOf "_element" slices ∧ colOf "charge" o = colOf "_charge" slices ∧
+    (o.map (·.2.2)).getLast? = some 80 ∧ bFactorFmt = (">", 6, 2) ∧ occupancyFmt = (">", 6, 2) := by decide
+
+/-- the compatibility check tests every field against the width of its column, numbers with the very format
+they are written with; the constants of the Lean model are the constants of the code -/
+theorem C07_gen_check :
+    checkLengths = [("chain_id", 1), ("res_name", 3), ("atom_name", 4), ("ins_code", 1), ("element", 2)] ∧
+    checkNumbers = [("coord", coordFmt, 8), ("b_factor", bFactorFmt, 6), ("occupancy", occupancyFmt, 6)] ∧
+    Gen.C07.minAtomId = -(10 ^ (5 - 1) - 1) ∧ Gen.C07.minResId = -(10 ^ (4 - 1) - 1) ∧
+    Gen.C07.minAtomId = C07.minAtomId ∧ Gen.C07.minResId = C07.minResId ∧
+    Gen.C07.pdbMaxAtoms = 10 ^ 5 - 1 ∧ Gen.C07.pdbMaxResidues = 10 ^ 4 - 1 ∧
+    Gen.C07.pdbMaxAtoms = C07.pdbMaxAtoms ∧ Gen.C07.pdbMaxResidues = C07.pdbMaxResidues ∧
+    h36AtomWidth = 5 ∧ h36ResWidth = 4 ∧ modelLine = [("lit", "lit", 10), ("model_num", "rjust", 4)] := by decide
+
+/-- hybrid36.pyx character constants: digits and the two letter ranges are contiguous and disjoint -/
+theorem C07_gen_ascii :
+    asciiFirstNumber = C07.asciiFirstNumber ∧ asciiLastNumber = C07.asciiLastNumber ∧
+    asciiFirstLetterUpper = C07.asciiFirstUpper ∧ asciiLastLetterUpper = C07.asciiLastUpper ∧
+    asciiFirstLetterLower = C07.asciiFirstLower ∧ asciiLastLetterLower = C07.asciiLastLower ∧
+    asciiLastNumber + 1 = asciiFirstNumber + 10 ∧ asciiLastLetterUpper + 1 = asciiFirstLetterUpper + 26 ∧
+    asciiLastLetterLower + 1 = asciiFirstLetterLower + 26 ∧ asciiLastNumber < asciiFirstLetterUpper ∧
+    asciiLastLetterUpper < asciiFirstLetterLower ∧ radixFactors = ["10", "26", "26-10"] := by decide
+
+end Gen
 
 end BiotiteModel.C07
